@@ -92,6 +92,8 @@ var (
 	repoDir  = "/repo"
 	simDir   string
 	buildDir string
+	// artifactDir receives evidence/ and replays/ (default: verifDir).
+	artifactDir string
 )
 
 // flavours of each property: which worker binary runs it.
@@ -137,6 +139,19 @@ func build(flavour string, race bool) (string, error) {
 		args = []string{"test", "-c", "-race", "-tags", tags, "-o"}
 	}
 	out := filepath.Join(buildDir, name+".test")
+	if repoDir != "/repo" {
+		// A scratch copy of the repository (sensitivity runs): same module
+		// file with the replace directive pointing at the copy.
+		gm, err := os.ReadFile(filepath.Join(simDir, "go.mod"))
+		if err != nil {
+			return "", err
+		}
+		alt := filepath.Join(buildDir, "go.alt.mod")
+		os.WriteFile(alt, bytes.ReplaceAll(gm, []byte("=> /repo"), []byte("=> "+repoDir)), 0644)
+		gs, _ := os.ReadFile(filepath.Join(simDir, "go.sum"))
+		os.WriteFile(filepath.Join(buildDir, "go.alt.sum"), gs, 0644)
+		args = append(args[:2], append([]string{"-modfile=" + alt}, args[2:]...)...)
+	}
 	args = append(args, out, ".")
 	cmd := exec.Command(goBin(), args...)
 	cmd.Dir = simDir
@@ -497,6 +512,11 @@ func main() {
 	if v := os.Getenv("VERIF_REPO"); v != "" {
 		repoDir = v
 	}
+	if v := os.Getenv("VERIF_ARTIFACT_DIR"); v != "" {
+		artifactDir = v
+	} else {
+		artifactDir = verifDir
+	}
 	simDir = filepath.Join(verifDir, "sim")
 	buildDir = filepath.Join(verifDir, ".build")
 	if v := os.Getenv("VERIF_BUILD_DIR"); v != "" {
@@ -730,8 +750,8 @@ func check(prop, tier string, seed int64, replay string, budget time.Duration, w
 			minBudget = 90 * time.Second
 		}
 		mv := minimise(bin, prop, v, outDir, minBudget, workers)
-		os.MkdirAll(filepath.Join(verifDir, "replays"), 0755)
-		rp := filepath.Join(verifDir, "replays", fmt.Sprintf("%s-%d-%d.json", prop, v.Seed, v.Run))
+		os.MkdirAll(filepath.Join(artifactDir, "replays"), 0755)
+		rp := filepath.Join(artifactDir, "replays", fmt.Sprintf("%s-%d-%d.json", prop, v.Seed, v.Run))
 		mv.ReplayCmd = fmt.Sprintf("bin/check %s --replay %s", prop, rp)
 		// Confirm in a fresh process, exactly.
 		r, code, stderr := singleRun(bin, prop, mv, len(mv.Draws) > 0, outDir, "confirm")
@@ -773,8 +793,8 @@ func check(prop, tier string, seed int64, replay string, budget time.Duration, w
 		for _, r := range reps {
 			keys = append(keys, r.Key)
 			again := raceReplay(r.Key, r.Seed, r.Run, outDir, 6)
-			os.MkdirAll(filepath.Join(verifDir, "replays"), 0755)
-			rp := filepath.Join(verifDir, "replays", fmt.Sprintf("C13-race-%d-%d.json", r.Seed, r.Run))
+			os.MkdirAll(filepath.Join(artifactDir, "replays"), 0755)
+			rp := filepath.Join(artifactDir, "replays", fmt.Sprintf("C13-race-%d-%d.json", r.Seed, r.Run))
 			site := strings.TrimPrefix(strings.TrimPrefix(r.Key, "C13.race@"), "C13.race-mode-panic@")
 			rule := "C13.race"
 			if strings.HasPrefix(r.Key, "C13.race-mode-panic@") {
@@ -806,15 +826,15 @@ func check(prop, tier string, seed int64, replay string, budget time.Duration, w
 	// Phase 4: evidence.
 	ev := buildEvidence(prop, tier, seed, desc, results, len(viols), reported, exploreWall, time.Since(t0), workers)
 	eb, _ := json.MarshalIndent(ev, "", " ")
-	os.MkdirAll(filepath.Join(verifDir, "evidence"), 0755)
-	if err := os.WriteFile(filepath.Join(verifDir, "evidence", prop+".json"), eb, 0644); err != nil {
+	os.MkdirAll(filepath.Join(artifactDir, "evidence"), 0755)
+	if err := os.WriteFile(filepath.Join(artifactDir, "evidence", prop+".json"), eb, 0644); err != nil {
 		fmt.Println("HARNESS-ERROR: cannot write evidence:", err)
 		return 2
 	}
 	if raceInfo != nil {
 		ev["coverage"].(map[string]interface{})["race_mode"] = raceInfo
 		eb, _ = json.MarshalIndent(ev, "", " ")
-		os.WriteFile(filepath.Join(verifDir, "evidence", prop+".json"), eb, 0644)
+		os.WriteFile(filepath.Join(artifactDir, "evidence", prop+".json"), eb, 0644)
 	}
 	cov := ev["coverage"].(map[string]interface{})
 	fmt.Printf("%s %s: %v runs, %v distinct non-trivial, %v distinct states, simulated %v, wall %.1fs, violations %d\n",
